@@ -6,6 +6,7 @@ import (
 	"net/http"
 	"net/url"
 	"reflect"
+	"sort"
 	"strings"
 )
 
@@ -509,7 +510,28 @@ func judgeReplaced(r *Run, j *Judged, cl []*cls, by map[int]*OResp) {
 			res := u.Res
 			vary, stable := r.varyStable(res)
 			if !stable {
-				continue
+				// the resource's Vary changes between replies: compare requests on every field any of its
+				// replies ever nominates (a request equal on all of them selects what the validated one selected)
+				names := map[string]bool{}
+				star := false
+				for _, p := range r.Scn.Resources[res].Plans {
+					for _, f := range strings.Split(p.Vary, ",") {
+						if f = strings.TrimSpace(f); f == "*" {
+							star = true
+						} else if f != "" {
+							names[http.CanonicalHeaderKey(f)] = true
+						}
+					}
+				}
+				if star {
+					continue
+				}
+				var fs []string
+				for f := range names {
+					fs = append(fs, f)
+				}
+				sort.Strings(fs)
+				vary = strings.Join(fs, ", ")
 			}
 			// another validation of the same resource in flight at the same time works on its own copy of the
 			// entry and may legitimately finish later: which write lands last is then a race, not a defect
